@@ -23,7 +23,12 @@ func runPhased(r *Run, in *epochInput) historyResult {
 	}
 	conf := in.Opts
 	rand.Seed(in.Seed)
-	pop, err := genetics.NewPopulation(start, conf)
+	var pop *genetics.Population
+	if in.PopText != "" {
+		pop, err = genetics.ReadPopulation(strings.NewReader(in.PopText), conf)
+	} else {
+		pop, err = genetics.NewPopulation(start, conf)
+	}
 	if err != nil {
 		bad("new-population-error", err.Error())
 		return res
